@@ -108,7 +108,11 @@ class Scenario:
     def run(self, action, verbose, srcs=(), into=None):
         argv = [action] + (["-v"] if verbose else []) + ([f"--into", into] if into else []) + [self.archive]
         if srcs:
-            argv += ["--"] + list(srcs)
+            # the documented spelling puts the sources (and the --eos markers between them) right after the archive;
+            # a bare "--" in front of them is the other accepted spelling: alternate, deterministically
+            plain = all(not s.startswith("-") or s.upper() == "--EOS" for s in srcs)
+            self._spell = getattr(self, "_spell", 0) + 1
+            argv += (list(srcs) if plain and self._spell % 2 == 1 else ["--"] + list(srcs))
         return D.dar(self.fl, argv, cwd=self.dir)
 
 
